@@ -68,8 +68,11 @@ type stateMachine struct {
 	id    uint64
 	index uint64
 	term  uint64
-	ch    chan interface{}
-	snaps *snapshots
+	// config of the latest config entry that is applied,
+	// i.e. cluster configuration as of index
+	config Config
+	ch     chan interface{}
+	snaps  *snapshots
 }
 
 func (fsm *stateMachine) runLoop() {
@@ -124,6 +127,8 @@ func (fsm *stateMachine) onApply(t fsmApply) {
 		}
 		if e.typ == entryUpdate {
 			fsm.Update(e.data)
+		} else if e.typ == entryConfig {
+			fsm.setConfig(e)
 		}
 		fsm.index, fsm.term = e.index, e.term
 	}
@@ -139,6 +144,8 @@ func (fsm *stateMachine) onApply(t fsmApply) {
 			resp = fsm.Read(ne.cmd)
 		} else if ne.typ == entryUpdate {
 			resp = fsm.Update(ne.data)
+		} else if ne.typ == entryConfig {
+			fsm.setConfig(ne.entry)
 		}
 		if ne.isLogEntry() {
 			fsm.index, fsm.term = ne.index, ne.term
@@ -146,6 +153,14 @@ func (fsm *stateMachine) onApply(t fsmApply) {
 		ne.reply(resp)
 	}
 	assert(fsm.index == commitIndex)
+}
+
+func (fsm *stateMachine) setConfig(e *entry) {
+	config := Config{}
+	if err := config.decode(e); err != nil {
+		panic(opError(err, "Log.Get(%d).decodeConfig", e.index))
+	}
+	fsm.config = config
 }
 
 func (fsm *stateMachine) onSnapReq(t fsmSnapReq) {
@@ -166,9 +181,10 @@ func (fsm *stateMachine) onSnapReq(t fsmSnapReq) {
 		return
 	}
 	t.reply(fsmSnapResp{
-		index: fsm.index,
-		term:  fsm.term,
-		state: state,
+		index:  fsm.index,
+		term:   fsm.term,
+		config: fsm.config,
+		state:  state,
 	})
 }
 
@@ -182,6 +198,7 @@ func (fsm *stateMachine) onRestoreReq() error {
 		return opError(err, "FSM.Restore")
 	}
 	fsm.index, fsm.term = snap.meta.index, snap.meta.term
+	fsm.config = snap.meta.config
 	return nil
 }
 
@@ -219,8 +236,8 @@ func (r *Raft) onTakeSnapshot(t takeSnapshot) {
 		return
 	}
 	r.snapTakenCh = make(chan snapTaken, 1)
-	go func(index uint64, config Config) { // tracked by r.snapTakenCh
-		meta, err := doTakeSnapshot(r.fsm, index, config)
+	go func(index uint64) { // tracked by r.snapTakenCh
+		meta, err := doTakeSnapshot(r.fsm, index)
 		if trace {
 			println(r, "doTakeSnapshot err:", err)
 		}
@@ -229,10 +246,10 @@ func (r *Raft) onTakeSnapshot(t takeSnapshot) {
 			meta: meta,
 			err:  err,
 		}
-	}(r.snaps.index+t.threshold, r.configs.Committed)
+	}(r.snaps.index + t.threshold)
 }
 
-func doTakeSnapshot(fsm *stateMachine, index uint64, config Config) (snapshotMeta, error) {
+func doTakeSnapshot(fsm *stateMachine, index uint64) (snapshotMeta, error) {
 	// get fsm state
 	req := fsmSnapReq{task: newTask(), index: index}
 	fsm.ch <- req
@@ -244,7 +261,9 @@ func doTakeSnapshot(fsm *stateMachine, index uint64, config Config) (snapshotMet
 	defer resp.state.Release()
 
 	// write snapshot to storage
-	sink, err := fsm.snaps.new(resp.index, resp.term, config)
+	// note: the config as of resp.index comes from fsm. the committed
+	// config that raft knows could be older or newer than resp.index
+	sink, err := fsm.snaps.new(resp.index, resp.term, resp.config)
 	if err != nil {
 		return snapshotMeta{}, opError(err, "snapshots.new")
 	}
@@ -328,9 +347,10 @@ type fsmSnapReq struct {
 
 // takeSnapshot() <- fsmLoop
 type fsmSnapResp struct {
-	index uint64
-	term  uint64
-	state FSMState
+	index  uint64
+	term   uint64
+	config Config
+	state  FSMState
 }
 
 // snapLoop -> raft (after snapshot taken)
